@@ -150,9 +150,22 @@ fn main() {
 			}
 		};
 	}
+	// thorough: each phase gets a share of the wall cap so that a slow machine still reaches all of them
+	let global_deadline = cx.deadline;
+	let share = |cx: &mut Ctx, frac: f64| {
+		let d = Instant::now() + std::time::Duration::from_secs_f64(cap as f64 * frac);
+		cx.deadline = if args.tier.is_thorough() && d < global_deadline { d } else { global_deadline };
+	};
+	share(&mut cx, 0.45);
 	phase!("b11", run11::run(&mut cx));
+	share(&mut cx, 1.0);
 	phase!("arb", run11::run_arbitrary(&mut cx));
+	share(&mut cx, 0.30);
 	phase!("b12", run12::run(&mut cx));
+	share(&mut cx, 1.0);
+	if args.tier.is_thorough() {
+		phase!("b11-wide", run11::run_wide(&mut cx));
+	}
 
 	// ---------------------------------------------------------------------------------------
 	for (k, v) in cx.stats.0.iter() {
@@ -164,6 +177,20 @@ fn main() {
 	ev.set(
 		"rule",
 		"distinct serialisations (BOLT-11 strings, BOLT-12 TLV streams) that the builders produced and that parsed back successfully; every mutation / verification case is derived from one of them",
+	);
+	ev.set(
+		"space",
+		json!({
+			"bolt11_factors": b11::FACTOR_NAMES.iter().zip(b11::FACTOR_SIZES.iter()).map(|(n, s)| json!([n, s])).collect::<Vec<_>>(),
+			"bolt11_families": "one-factor, all pairs of factor values, full product amount x timestamp x expiry x description x payee x mpp, full product fallbacks x routes x metadata x cltv(thorough) x payee x amount{none,1msat,max} x order; thorough adds a wide product of all factors (run last, round trip only)",
+			"bolt11_mutations": "per selected invoice: every character x every other character of [a-z0-9] (HRP) / bech32 alphabet + 3 foreign characters (data), every single-character deletion; with recomputed checksum: every data symbol x 31 values, HRP amount/multiplier/currency edits, remove/duplicate/swap/insert of tagged fields, all truncations",
+			"bolt12_offer_factors": b12::OFFER_FACTOR_NAMES.iter().zip(b12::OFFER_FACTOR_SIZES.iter()).map(|(n, s)| json!([n, s])).collect::<Vec<_>>(),
+			"bolt12_refund_factors": b12::REFUND_FACTOR_NAMES.iter().zip(b12::REFUND_FACTOR_SIZES.iter()).map(|(n, s)| json!([n, s])).collect::<Vec<_>>(),
+			"bolt12_request_factors": [["chain", 3], ["amount", 4], ["quantity", 5], ["payer_note", 2], ["hrn", 2]],
+			"bolt12_invoice_factors": [["payment_paths", 2], ["relative_expiry", 4], ["fallbacks", 5], ["mpp", 2], ["created_at", 4]],
+			"bolt12_mutations": "every single-bit flip of selected signed streams (invoice request, invoice, refund invoice, static invoice) and of selected offers/refunds; every bit flip / record removal / unknown-record insertion / one-byte extension or shortening of each offer record (requests against the altered offer) and of each reflected record < 160 of invoices (re-signed by the recipient)",
+			"arbitrary": "all strings of <= 3 bech32 characters after lnbc/lntb/lnbcrt/lno/lnr/lni with and without separator; structured corpus; all byte strings of length <= 2 (thorough 3); every truncation of the selected streams (+ 3 x 0xff)"
+		}),
 	);
 	ev.set("capped", cx.capped);
 	ev.set("exhaustive", !cx.capped && only.is_none());
@@ -179,8 +206,25 @@ fn main() {
 	ev.assume("BOLT-12 builders consult the wall clock for offer/refund expiry; enumerated expiries are either absent, in the far future (2^40 s) or in 1970, so the outcome does not depend on the current time");
 	ev.assume("the derived recipient signing secret of path-derived offers is not reachable from outside the crate; re-signed altered invoices use explicit-key and metadata-derived offers only");
 
+	// one violation per identity: lowest (order, rank)
+	cx.viols.sort_by(|a, b| (a.1.identity.as_str(), a.0, a.1.rank).cmp(&(b.1.identity.as_str(), b.0, b.1.rank)));
+	let mut seen = std::collections::BTreeSet::new();
+	let mut violations = Vec::new();
+	for (_, v) in cx.viols.iter() {
+		if seen.insert(v.identity.clone()) {
+			violations.push(Violation {
+				property: ID.to_string(),
+				oracle: v.oracle.to_string(),
+				identity: v.identity.clone(),
+				detail: v.detail.replace('\x1f', " ").chars().take(3000).collect(),
+				replay: v.replay.clone(),
+			});
+		}
+	}
 	// vacuity guards
-	if only.is_none() {
+	// (checked only when nothing fired: a defect that removes an outcome class must surface as its
+	// violation, not as a machinery error)
+	if only.is_none() && violations.is_empty() {
 		let need = [
 			"b11.roundtrip.ok",
 			"b11.builder_rejected",
@@ -242,21 +286,6 @@ fn main() {
 		}
 	}
 
-	// one violation per identity: lowest (order, rank)
-	cx.viols.sort_by(|a, b| (a.1.identity.as_str(), a.0, a.1.rank).cmp(&(b.1.identity.as_str(), b.0, b.1.rank)));
-	let mut seen = std::collections::BTreeSet::new();
-	let mut violations = Vec::new();
-	for (_, v) in cx.viols.iter() {
-		if seen.insert(v.identity.clone()) {
-			violations.push(Violation {
-				property: ID.to_string(),
-				oracle: v.oracle.to_string(),
-				identity: v.identity.clone(),
-				detail: v.detail.replace('\x1f', " ").chars().take(3000).collect(),
-				replay: v.replay.clone(),
-			});
-		}
-	}
 	ev.set("violation_candidates", cx.viols.len() as u64);
 	eprintln!(
 		"[{}] tier={} evaluations={} distinct_nontrivial={} capped={} violations={} wall={:.1}s",
